@@ -9,7 +9,7 @@ For every tree that is well typed for that schema:
 * `C17_walk`: the generic walker visits every node below the root exactly once;
 * `C18_eq`: `==` holds iff the trees are structurally identical.
 The decidable obligations `schema_links`, `schema_walk`, `schema_eq`, `schema_exercised` are re-decided on every run.
-`replace_child` and the state after dependency resolution: oracle streams only.
+`C17_replace`: `replace_child` reaches every child slot (schema obligation); the state after dependency resolution: oracle streams only.
 -/
 namespace Tumfl.Props
 open Tumfl.Model Tumfl.Theory Tumfl.Inst
@@ -21,6 +21,11 @@ theorem C17_links (t : GT) (h : wellTyped t = true) :
 theorem C17_walk (t : GT) (h : wellTyped t = true) :
     links walkOf [] t = allEdges [] t ∧ (childPaths (links walkOf [] t)).Nodup :=
   ast_walk t h
+
+/-- `replace_child` substitutes exactly the given child, in every child slot of every node class - the names wrapped inside a `local` declaration
+included: decided on the extracted schema, whose `replaced` column is measured by calling the real `replace_child` on every child of every
+slot of a sample covering all 34 classes (child replaced at its position, nothing else changed, and back). -/
+theorem C17_replace : SchemaReplace = true := schema_replace
 
 theorem C18_eq (a b : GT) (h : wellTyped a = true) : eqG cmpOf a b = true ↔ a = b := ast_eq_iff a b h
 
